@@ -286,7 +286,14 @@ def edited_nontrivial(case):
     return any([c.idx for c in h.children(n)] != sorted(c.idx for c in h.children(n)) for n in h)
 
 
+def call_strategy(tier):
+    return st.fixed_dictionaries({"prog": proggen.programs(size=14 if tier == "quick" else 22, max_depth=1, roots=("module",), detached=False, call_bias=True), "cfg": CFG, "cfg2": CFG})
+
+
 SUBS = [
+    # module programs dominated by calls / function loads (static edges, order edges touching calls)
+    Sub("render-calls", check, strategy=call_strategy, nontrivial=lambda c: "call" in c["prog"].get("classes", []), classes=lambda c: [x for x in c["prog"].get("classes", []) if x in ("call", "load-function", "explicit-order-edge")],
+        n_quick=100, n_thorough=800, sample_ok=lambda c: len(c["prog"]["events"]) <= 8),
     # HUGRs after raw edits with index reuse: child order differs from index order
     Sub("render-after-edits", check, fuzz_runs=800, strategy=edited_strategy, nontrivial=edited_nontrivial, classes=lambda c: ["children-not-in-index-order"] if edited_nontrivial(c) else ["children-in-index-order"], n_quick=150, n_thorough=1000),
     Sub("render", check, strategy=strategy, nontrivial=nontrivial, classes=lambda c: ["qualify" if c["cfg"]["qualify"] else "plain", "custom-palette" if not isinstance(c["cfg"]["palette"], str) else c["cfg"]["palette"]] + [x for x in c["prog"].get("classes", []) if x in NT | CONT | {"metadata"}],
